@@ -2,7 +2,7 @@ from ..driver import Prop, Suite
 from .. import ringgen, unigen
 
 class C01(Prop):
-    pid = "C01"; prop_file = "C01.v"; design_ref = "DESIGN.md §4 C01"
+    pid = "C01"; prop_file = ["C01.v", "C01Z.v"]; design_ref = "DESIGN.md §4 C01"
     rule = ("cases: random programs for 2-5 threads, random bursty schedule then round-robin; suites: raw AtomicMove ring, raw FullSyncMove ring "
             "(publish/consume/length), movable atomic and movable full-sync Uni channels (send/send_with/poll/executor-driven streams/cancel_all/length, "
             "N in {2,4,8}, MAX_STREAMS in {1,2}, 1..MAX_STREAMS streams); non-trivial = a context switch inside another thread's operation AND a full/empty/pending answer; distinct by sha1")
@@ -16,7 +16,7 @@ class C01(Prop):
                 Suite("uni_move_full_sync", unigen.HEADER, [unigen.gen_case(rng, "move_full_sync") for _ in range(n)]),
                 Suite("uni_move_atomic_entry_points", unigen.XHEADER, [unigen.gen_entry_case(rng, "move_atomic") for _ in range(n)]),
                 Suite("uni_move_full_sync_async", unigen.HEADER, [unigen.gen_entry_case(rng, "move_full_sync") for _ in range(n // 3)])
-                ] + unigen.oracle_only_suites(rng, n // 2)
+                ] + unigen.oracle_only_suites(rng, n // 3)
     def oracle(self, case, recs):
         if "chan" in case.meta: return unigen.uni_oracle_exactly_once(case, recs)
         return ringgen.oracle_exactly_once(case, recs)
